@@ -156,7 +156,7 @@ def run(ctx):
     elif q:
         ctx.tlc_mc(SPEC, "MCBitswapEngine.tla", "MCBitswapEngineLive.cfg", timeout=900)
     else:
-        ctx.tlc_mc(SPEC, "MCBitswapEngine.tla", "MCBitswapEngine.cfg", timeout=3000, coverage=True)
+        ctx.tlc_mc(SPEC, "MCBitswapEngine.tla", "MCBitswapEngine.cfg", timeout=5400, coverage=True)
         ctx.tlc_mc(SPEC, "MCBitswapEngine.tla", "MCBitswapEngineLive.cfg", timeout=1800)
         r = ctx.tlc_mc(SPEC, "MCBitswapEngine.tla", "MCBitswapEngineAsBuilt.cfg", timeout=1800, expect_violation=True)
         if r["violated"] != "RawHaveOnly":
@@ -168,11 +168,11 @@ def run(ctx):
     d3 = []
     if not q:
         d3 = ctx.tlc_gen(SPEC, "GenBitswapEngine.tla", "GenBitswapEngineD3.cfg", timeout=2400, workers=8)
-        if len(d3) > 6000:
-            d3 = ctx.rng.sample(d3, 6000)
-        if len(bfs) > 6000:
-            bfs = ctx.rng.sample(bfs, 6000)
-    sims = ctx.tlc_gen(SPEC, "GenBitswapEngine.tla", "GenBitswapEngineSim.cfg", simulate=6 if q else 60,
+        if len(d3) > 1500:
+            d3 = ctx.rng.sample(d3, 1500)
+        if len(bfs) > 1500:
+            bfs = ctx.rng.sample(bfs, 1500)
+    sims = ctx.tlc_gen(SPEC, "GenBitswapEngine.tla", "GenBitswapEngineSim.cfg", simulate=6 if q else 20,
                        depth=8 * (10 if q else 25) + 1, timeout=1800)
     binp = ctx.go_build(PKG, [PKG + "/zz_verif_C36_test.go"])
     grecs = []
@@ -190,7 +190,7 @@ def run(ctx):
         return
     ctx.cov["exhaustive"] = True
     # ---- T: random scripts
-    recs, out, rc = ctx.go_run(binp, TEST, pkg=PKG, mode="record", timeout=900, env={"C36_RUNS": 3 if q else 30})
+    recs, out, rc = ctx.go_run(binp, TEST, pkg=PKG, mode="record", timeout=900, env={"C36_RUNS": 3 if q else 20})
     if rc != 0 or not recs:
         ctx.broken("record driver died: " + out[-1500:])
         return
